@@ -83,17 +83,29 @@ static void lsanAfterRun(Result& res) {
     // A leak counts against the library only if one of its functions is in the allocation stack; memory Xerces-C or ICU lose on their own
     // (Xerces drops 40 bytes when a read fails) is counted as a probe.  The signature names the first two library frames.
     auto flush = [&]() { if (direct && bytes) { std::string sig; int got = 0; bool anyLib = false; for (auto& fr : frames) if (fr.compare(0, 2, "X:") == 0) anyLib = true;
-        if (!anyLib) { res.count("probe:lsan-leak-without-a-library-frame"); bytes = 0; frames.clear(); direct = false; return; }
-        for (auto& fr0 : frames) { std::string fr = fr0.compare(0, 2, "X:") == 0 ? fr0.substr(2) : fr0; if (fr0.compare(0, 2, "X:") != 0) continue; if (fr.find("operator new") != std::string::npos || fr.find("malloc") != std::string::npos || fr.find("calloc") != std::string::npos || fr.find("realloc") != std::string::npos) continue; if (got) sig += "<"; sig += fr; if (++got == 2) break; } if (sig.empty()) sig = "unknown"; now[sig] += bytes; if (!text.count(sig)) { std::string t; for (auto& fr : frames) t += (fr.compare(0, 2, "X:") == 0 ? fr.substr(2) : fr) + " < "; text[sig] = t; } } bytes = 0; frames.clear(); direct = false; };
+        // No library frame.  A stack that reaches the driver is complete: the memory was lost by Xerces-C, ICU or the harness on their own (probe).
+        // A stack that ends inside libstdc++ or libc was cut off by the frame-pointer unwinder (those libraries keep no frame pointers), so the
+        // caller is unknown; with a Xerces-C or ICU frame in sight it is put down to them, otherwise it is memory obtained through the C++
+        // runtime (strstream, iostream, std::string) during this run and never released - the library's, since the harness loses none on the
+        // unchanged tree.  ASAN_OPTIONS=fast_unwind_on_malloc=0 with the replay file shows the whole stack.
+        if (!anyLib) {
+            bool complete = false, ext = false; std::string top;
+            for (auto& fr : frames) { if (fr.compare(0, 5, "sim::") == 0 || fr == "main" || fr.find("Driver::") != std::string::npos) complete = true; if (fr.compare(0, 2, "E:") == 0) ext = true;
+                if (top.empty() && fr.find("operator new") == std::string::npos && fr.find("malloc") == std::string::npos && fr.find("calloc") == std::string::npos && fr.find("realloc") == std::string::npos) top = fr; }
+            if (complete || ext || top.empty()) { res.count("probe:lsan-leak-without-a-library-frame"); bytes = 0; frames.clear(); direct = false; return; }
+            std::string sig = "stack-cut-off-at:" + top; now[sig] += bytes; if (!text.count(sig)) { std::string t; for (auto& fr : frames) t += fr + " < "; text[sig] = t + "(cut off by the unwinder; replay with ASAN_OPTIONS=fast_unwind_on_malloc=0 for the callers)"; }
+            bytes = 0; frames.clear(); direct = false; return;
+        }
+        for (auto& fr0 : frames) { std::string fr = fr0.compare(0, 2, "X:") == 0 ? fr0.substr(2) : fr0; if (fr0.compare(0, 2, "X:") != 0) continue; if (fr.find("operator new") != std::string::npos || fr.find("malloc") != std::string::npos || fr.find("calloc") != std::string::npos || fr.find("realloc") != std::string::npos) continue; if (got) sig += "<"; sig += fr; if (++got == 2) break; } if (sig.empty()) sig = "unknown"; now[sig] += bytes; if (!text.count(sig)) { std::string t; for (auto& fr : frames) t += ((fr.compare(0, 2, "X:") == 0 || fr.compare(0, 2, "E:") == 0) ? fr.substr(2) : fr) + " < "; text[sig] = t; } } bytes = 0; frames.clear(); direct = false; };
     while (fgets(line, sizeof line, f)) {
         std::string l = line;
         if (l.compare(0, 14, "Direct leak of") == 0) { flush(); direct = true; bytes = atol(l.c_str() + 15); }
         else if (l.compare(0, 16, "Indirect leak of") == 0 || l.compare(0, 8, "SUMMARY:") == 0) flush();
         else if (direct && l.find("    #") == 0 && l.find(" in ") == std::string::npos) {
             // a frame without a symbol (a static function of a stripped system library): module name and offset identify it
-            size_t a = l.find('('), b = a == std::string::npos ? a : l.find(')', a); if (b != std::string::npos) { std::string m = l.substr(a + 1, b - a - 1); size_t sl = m.rfind('/'); if (sl != std::string::npos) m = m.substr(sl + 1); frames.push_back(m); }
+            size_t a = l.find('('), b = a == std::string::npos ? a : l.find(')', a); if (b != std::string::npos) { std::string m = l.substr(a + 1, b - a - 1); size_t sl = m.rfind('/'); if (sl != std::string::npos) m = m.substr(sl + 1); if (m.find("libxerces-c") == 0 || m.find("libicu") == 0) m = "E:" + m; frames.push_back(m); }
         }
-        else if (direct) { size_t q = l.find(" in "); if (l.find("    #") == 0 && q != std::string::npos) { std::string fn = l.substr(q + 4); size_t e = fn.find(" /"); if (e == std::string::npos) e = fn.find(" ("); if (e != std::string::npos) fn = fn.substr(0, e); size_t par = fn.find('('); if (par != std::string::npos) fn = fn.substr(0, par); const bool lib = fn.find("xalanc_1_12::") != std::string::npos; for (const char* ns : { "xalanc_1_12::", "xercesc_3_2::", "icu_72::" }) { size_t z; while ((z = fn.find(ns)) != std::string::npos) fn.erase(z, strlen(ns)); } if (lib) fn = "X:" + fn; while (!fn.empty() && (fn.back() == '\n' || fn.back() == ' ')) fn.pop_back(); frames.push_back(fn); } }
+        else if (direct) { size_t q = l.find(" in "); if (l.find("    #") == 0 && q != std::string::npos) { std::string fn = l.substr(q + 4); size_t e = fn.find(" /"); if (e == std::string::npos) e = fn.find(" ("); if (e != std::string::npos) fn = fn.substr(0, e); size_t par = fn.find('('); if (par != std::string::npos) fn = fn.substr(0, par); const bool lib = fn.find("xalanc_1_12::") != std::string::npos || l.find("/src/xalanc/") != std::string::npos;   /* the C API and file-static helpers are outside the namespace */ for (const char* ns : { "xalanc_1_12::", "xercesc_3_2::", "icu_72::" }) { size_t z; while ((z = fn.find(ns)) != std::string::npos) fn.erase(z, strlen(ns)); } if (lib) fn = "X:" + fn; else if (l.find("xercesc_3_2::") != std::string::npos || l.find("icu_72::") != std::string::npos || l.find("libxerces-c") != std::string::npos || l.find("libicu") != std::string::npos) fn = "E:" + fn; while (!fn.empty() && (fn.back() == '\n' || fn.back() == ' ')) fn.pop_back(); frames.push_back(fn); } }
     }
     flush(); fclose(f); unlink(file.c_str());
     for (auto& kv : now) { long before = g_leakSeen.count(kv.first) ? g_leakSeen[kv.first] : 0; if (kv.second > before) res.violate("leak:lsan", kv.first, "LeakSanitizer: " + std::to_string(kv.second - before) + " byte(s) lost during this run, allocated from " + text[kv.first]); }
